@@ -35,20 +35,18 @@ pub fn memo_closure_once() {
     kani::cover!(reenter && !fail, "self-dependent binding reached");
 }
 
-//@harness tier=quick timeout=900 desc="MappedArray (std.map / mapWithIndex): an element is computed at most once however often and in whatever order elements are read; out-of-range reads never run the function; mapWithIndex passes the element's own index" bounds="array length 3, 3 reads at symbolic indexes, outcome Ok/Err, re-entrancy on/off"
+//@harness tier=quick timeout=900 desc="MappedArray (std.map / mapWithIndex): an element is computed at most once however often and in whatever order elements are read (also when its first evaluation failed); out-of-range reads never run the function; mapWithIndex passes the element's own index" bounds="array length 3, 3 reads at symbolic indexes 0..=4, outcome Ok/Err"
 #[kani::proof]
-#[kani::unwind(6)]
+#[kani::unwind(5)]
 pub fn mapped_array_once() {
     let fail: bool = kani::any();
-    let reenter: bool = kani::any();
     let with_index: bool = kani::any();
     // the cache vector has a concrete length (a Vec of symbolic length exhausts CBMC's heap model)
     let n: usize = 3;
     FAIL.store(fail, Relaxed);
-    REENTER.store(reenter, Relaxed);
+    // REENTER keeps its initial value `false`: the self-dependent case is mapped_array_reentrant
     let mapper = if with_index { ArrayMapper::WithIndex(MapIdxFn) } else { ArrayMapper::Plain(MapFn) };
     let arr = MappedArray::new(ArrValue { n }, mapper);
-    CELL.store(&arr as *const _ as usize, Relaxed);
     assert!(CALLS.load(Relaxed) == 0, "C03.map.lazy building the mapped array evaluates nothing");
     let mut seen = [false; 3];
     let mut distinct: u32 = 0;
@@ -76,9 +74,25 @@ pub fn mapped_array_once() {
         assert!(CALLS.load(Relaxed) == distinct, "C03.map.once the function runs once per element actually read, never for unread or out-of-range elements");
         step += 1;
     }
-    assert!(REENTRANT_RESULT_OK.load(Relaxed), "C03.map.reentrant an element that depends on itself is reported as infinite recursion");
     assert!(arr.len() == n, "C03.map.len");
-    kani::cover!(distinct == 1 && n == 3, "same element read three times reached");
+    kani::cover!(distinct == 1 && fail, "failing element read three times reached");
     kani::cover!(distinct == 3, "three different elements reached");
-    kani::cover!(reenter && distinct > 0, "self-dependent element reached");
+}
+
+//@harness tier=quick timeout=900 desc="MappedArray: an element whose function reads the same element is reported as infinite recursion, and the function still runs once" bounds="array length 2, one read at a symbolic index"
+#[kani::proof]
+#[kani::unwind(5)]
+pub fn mapped_array_reentrant() {
+    let n: usize = 2;
+    REENTER.store(true, Relaxed);
+    let arr = MappedArray::new(ArrValue { n }, ArrayMapper::Plain(MapFn));
+    CELL.store(&arr as *const _ as usize, Relaxed);
+    let i: usize = kani::any();
+    kani::assume(i < n);
+    let r = arr.get(i);
+    assert!(matches!(r, Ok(Some(Val(x))) if x == (10 + i as i32) * 2), "C03.map.reentrant.value the outer read still yields the value");
+    assert!(REENTRANT_RESULT_OK.load(Relaxed), "C03.map.reentrant an element that depends on itself is reported as infinite recursion");
+    assert!(CALLS.load(Relaxed) == 1, "C03.map.once the function runs once per element actually read, never for unread or out-of-range elements");
+    kani::cover!(i == 1, "second element reached");
+    kani::cover!(i == 0, "first element reached");
 }
